@@ -15,7 +15,7 @@ from mc.core.util import exc_name
 
 ID = "C01"
 LEVEL = "model_checking"
-REQUIRED_OUTCOMES = ["cycle:ok", "reloaded-start:ok", "file-cycle:ok", "has:depth3", "has:layered-product",
+REQUIRED_OUTCOMES = ["cycle:ok", "reloaded-start:ok", "edit-after-write:ok", "file-cycle:ok", "has:depth3", "has:layered-product",
                      "has:dashed-top-uid", "has:label", "has:base-product"]
 
 
@@ -63,7 +63,7 @@ def spec_of(case):
     return spec
 
 
-def oracle(spec, obj, via_file=False, doc_extras=False):
+def oracle(spec, obj, via_file=False, doc_extras=False, used_reader_text=None):          # (ComposeInfo readers are single-use: a second loads() is refused)
     """Returns ("refused", why) or ("ok"/"bad", [problems])."""
     import productmd.composeinfo as pc
     problems = []
@@ -119,13 +119,26 @@ def oracle(spec, obj, via_file=False, doc_extras=False):
 
 def eval_case(case):
     """case = {seed, edits, mode}: mode 'scratch' builds the whole spec; 'reloaded' builds the parent, writes and
-    re-reads it, and applies the last edit to the re-read object."""
+    re-reads it, and applies the last edit to the re-read object; 'live' builds the parent, WRITES it (and queries it),
+    applies the last edit to that same live object and writes again - whatever the first write left behind in the object
+    (caches, normalised fields, a stamped header) must not show in the second file."""
     import productmd.composeinfo as pc
     spec = spec_of(case)
     shallow = len(case["edits"]) <= 1
+    used_text = None
     try:
         if case["mode"] == "scratch":
             obj = B.build(spec)
+        elif case["mode"] == "live":
+            parent = spec_of({"seed": case["seed"], "edits": case["edits"][:-1]})
+            obj = B.build(parent)
+            used_text = obj.dumps()
+            obj.validate()
+            obj.get_variants()
+            [obj.get_variants(arch=a) for a in ("x86_64", "src")]
+            str(obj)
+            obj.create_compose_id()
+            B.apply_obj(obj, case["edits"][-1], spec)
         else:
             parent = spec_of({"seed": case["seed"], "edits": case["edits"][:-1]})
             obj = pc.ComposeInfo()
@@ -139,13 +152,13 @@ def eval_case(case):
     except (ValueError, TypeError) as exc:
         return {"status": "refused", "problems": ["build: %s" % exc_name(exc)]}
     except (KeyError, IndexError, AttributeError) as exc:
-        if case["mode"] == "scratch":
+        if case["mode"] in ("scratch", "live"):
             return {"status": "bad", "problems": ["the documented public API could not be used to build the description: %s: %s"
                                                   % (exc_name(exc), str(exc)[:120])]}
         return {"status": "bad", "problems": ["the re-read parent object does not hold what was written to it, the next "
                                               "edit cannot be applied: %s" % exc_name(exc)]}
     status, problems = oracle(spec, obj, via_file=shallow and case["mode"] == "scratch",
-                              doc_extras=shallow and case["mode"] == "scratch")
+                              doc_extras=shallow and case["mode"] == "scratch", used_reader_text=used_text)
     return {"status": status, "problems": problems}
 
 
@@ -162,14 +175,14 @@ def run_unit(unit, acc):
     uni = Universe(seed)
 
     def visit(spec, trace, parent, last):
-        for mode in ("scratch", "reloaded"):
-            if mode == "reloaded" and last is None:
+        for mode in ("scratch", "reloaded", "live"):
+            if mode != "scratch" and last is None:
                 continue
             case = {"seed": trace[0], "edits": trace[1:], "mode": mode}
             o = eval_case(case)
             acc.ev()
             acc.trace()
-            tag = "cycle" if mode == "scratch" else "reloaded-start"
+            tag = {"scratch": "cycle", "reloaded": "reloaded-start", "live": "edit-after-write"}[mode]
             if o["status"] == "refused":
                 acc.outcome(tag + ":refused")
                 acc.n["refused"] += 1
